@@ -1,4 +1,4 @@
-import DaeVerif.C20.Live
+import DaeVerif.C20.Meta
 /-!
 # C20 — property theorems
 
@@ -210,9 +210,11 @@ theorem end_suppression_never_clamped {s : St} (hr : Reachable s) (hx : s.exited
 /-- **A settled daemon is clean**: in a reachable state of a running daemon in which nothing can
 move by itself (no section left to run, no queued request, no pending notification, no retirement
 running), no request is in progress, the suppression is lifted, no flag is stuck and the progress
-file does not say busy — whatever happened before (success, failure at any stage, rejections). -/
+file does not say busy — whatever happened before (success, failure at any stage, rejections).  The
+flags part holds even when progress-file operations failed on the way (`faults > 0`: stepMF, stepWF,
+gReadF, gWriteF, swallowF); only the statement about the file's content needs the file to have worked. -/
 theorem settled_is_clean {s : St} (hr : Reachable s) (hx : s.exited = false) (hq : quiescent s = true) :
-    s.pending = false ∧ s.suppress = 0 ∧ s.progress.isBusy = false ∧ s.active = false ∧
+    s.pending = false ∧ s.suppress = 0 ∧ (s.faults = 0 → s.progress.isBusy = false) ∧ s.active = false ∧
     s.reloading = false ∧ s.queue = [] :=
   have hi := idle_of_quiescent hq hx
   have h := clean_of_idle (reachable_inv hr hx) hi
@@ -229,10 +231,10 @@ example : ∃ s, Reachable s ∧ s.exited = false ∧ quiescent s = true ∧ s.p
 is always covered — a request is in progress, or some goroutine still has the read that will clear
 it ahead.  In particular no reachable settled state has `pending = false ∧ progress = busy`; this
 covers every interleaving of the refuser's sections with the releaser's sections. -/
-theorem no_stale_busy_when_idle {s : St} (hr : Reachable s) (hx : s.exited = false)
+theorem no_stale_busy_when_idle {s : St} (hr : Reachable s) (hx : s.exited = false) (hf : s.faults = 0)
     (hb : s.progress.isBusy = true) :
     s.pending = true ∨ anyRd s.m = true ∨ anyRd s.w = true ∨ 0 < s.gStore + s.gEnd + s.gRead + s.gWrite :=
-  (reachable_inv hr hx).busy hb
+  (reachable_inv hr hx).busy hf hb
 
 /-- the schedule of the repaired defect: reload succeeds, old generation retiring, second request
 refused; the release goroutine runs completely between the refuser's CAS and its busy report. -/
@@ -240,9 +242,9 @@ def exStaleBusy : List Act :=
   exAccepted ++ [.wStart 4] ++ List.replicate 12 .stepW ++ [.wake 5] ++ List.replicate 5 .stepM ++
   [.sig .reload, .stepM, .closeG, .gStore, .gEnd, .gRead, .stepM]
 
-example : ∃ s, Reachable s ∧ s.exited = false ∧ s.progress.isBusy = true ∧ s.pending = false ∧
+example : ∃ s, Reachable s ∧ s.exited = false ∧ s.faults = 0 ∧ s.progress.isBusy = true ∧ s.pending = false ∧
     s.m = [.readProg] :=
-  ⟨_, reachable_of_run (acts := exStaleBusy) rfl, rfl, rfl, rfl, rfl⟩
+  ⟨_, reachable_of_run (acts := exStaleBusy) rfl, rfl, rfl, rfl, rfl, rfl⟩
 
 /-- **Whatever the scheduler does, the system's own steps run out**: a run of `n` internal steps
 (worker statements, main-loop sections, release goroutines, retirement completions, wake-ups) from
@@ -265,7 +267,7 @@ accepted and queued. -/
 theorem eventually_accepts_again {s : St} (hr : Reachable s) :
     ∃ acts s', (∀ a ∈ acts, a.isExternal = false) ∧ runActs s acts = some s' ∧ quiescent s' = true ∧
       (s'.exited = true ∨
-        (s'.pending = false ∧ s'.suppress = 0 ∧ s'.progress.isBusy = false ∧
+        (s'.pending = false ∧ s'.suppress = 0 ∧ (s'.faults = 0 → s'.progress.isBusy = false) ∧
           ∀ k, ∃ s'', runActs s' [.sig k, .stepM, .stepM] = some s'' ∧ s''.pending = true ∧
             s''.queue = [k] ∧ s''.suppress = 1)) := by
   obtain ⟨acts, s', h1, h2, h3⟩ := settles (mu s) (s := s) (Nat.le_refl _)
@@ -277,7 +279,7 @@ theorem eventually_accepts_again {s : St} (hr : Reachable s) :
     have hi := idle_of_quiescent h3 hx
     refine ⟨hc.1, hc.2.1, hc.2.2.1, fun k => ?_⟩
     refine ⟨{ s' with pending := true, suppress := s'.suppress + 1, queue := s'.queue ++ [k], m := [], marker := false,
-                      qAbort := s'.marker }, ?_, rfl, ?_, ?_⟩
+                      qAbort := s'.marker, reqAt := s'.now }, ?_, rfl, ?_, ?_⟩
     · simp [runActs, step, hx, hi.m, exec, hc.1, hi.queue]
     · simp [hi.queue]
     · simp [hc.2.1]
@@ -368,7 +370,8 @@ theorem muting_always_lifted {s : St} (hr : Reachable s) (hx : s.exited = false)
   have hi := idle_of_quiescent hq hx
   have hc := settled_is_clean hr hx hq
   have hm := (reachable_clock hr).mute
-  refine ⟨hm, { s with mgrLeft := s.mgrLeft - quiesceNs, gLeft := s.gLeft - quiesceNs, muteLeft := s.muteLeft - quiesceNs }, ?_, ?_⟩
+  refine ⟨hm, { s with mgrLeft := s.mgrLeft - quiesceNs, gLeft := s.gLeft - quiesceNs, muteLeft := s.muteLeft - quiesceNs,
+                       now := s.now + quiesceNs }, ?_, ?_⟩
   · have hret : (s.retDone != some false) = true := by
       cases h : s.retDone with
       | none => rfl
@@ -394,12 +397,107 @@ Processing, a busy report, a cleared busy report (Done ""), or a client's Reload
 say that the own answer, once written, survives until the release: a refusal's busy report may
 overwrite it and then be cleared to Done "" — one progress slot shared by all requesters; see the
 design note, observations B–D.) -/
-theorem no_foreign_answer_in_progress {s : St} (hr : Reachable s) (hx : s.exited = false)
+theorem no_foreign_answer_in_progress {s : St} (hr : Reachable s) (hx : s.exited = false) (hf : s.faults = 0)
     (h : answerPending s = true) : s.progress.isAnswer = false :=
-  (reachable_inv hr hx).own h
+  (reachable_inv hr hx).own hf h
 
 example : ∃ s, Reachable s ∧ s.exited = false ∧ answerPending s = true ∧ s.progress = .processing :=
   ⟨_, reachable_of_run (acts := exAccepted ++ [.wStart 4, .stepW, .stepW, .stepW]) rfl, rfl, rfl, rfl⟩
+
+/-! ### failing progress-file operations (faults injected at every section that touches the file) -/
+
+/-- **A failing progress-file operation touches nothing**: a section whose write / read fails leaves
+the whole shared state as it was (the error is dropped), and the same section with working I/O
+changes the progress file and nothing else; whichever way it goes, all it can schedule is the
+busy-report clean-up (`readProg`, `writeClr`).  So no flag, no counter, no queue ever depends on
+whether `/var/run/dae.progress` could be written or read. -/
+theorem io_fault_touches_only_the_file (s : St) (x : Micro) (r : St × List Micro) (h : execF s x = some r) :
+    r.1 = s ∧ (exec s x).1 = { s with progress := (exec s x).1.progress } ∧
+    (∀ y ∈ r.2 ++ (exec s x).2, y = .readProg ∨ y = .writeClr) := by
+  cases x <;> simp only [execF, Option.some.injEq, reduceCtorEq] at h <;> subst h <;>
+    simp only [exec] <;> (repeat' split) <;> simp
+
+example : execF { pending := true, m := [.writeBusy true] } (.writeBusy true) =
+    some ({ pending := true, m := [.writeBusy true] }, []) := rfl
+
+/-- **A refused request changes nothing — not even the busy report — when the file cannot be
+written**: the refuser's sections with failing I/O leave every component untouched except the main
+loop's own program counter (and the count of failed operations). -/
+theorem refusal_is_pure_under_io_faults {s s' : St} {x : Micro} {rest : List Micro} (hm : s.m = x :: rest)
+    (hx : (∃ b, x = .writeBusy b) ∨ x = .readProg ∨ x = .writeClr)
+    (hs : step s .stepMF = some s') :
+    s' = { s with m := s'.m, faults := s.faults + 1 } := by
+  unfold step at hs
+  cases hex : s.exited
+  case true => simp [hex] at hs
+  simp only [hex, hm, Bool.false_eq_true, if_false] at hs
+  rcases hx with ⟨b, rfl⟩ | rfl | rfl <;> simp only [execF, Option.some.injEq] at hs <;> rw [← hs] <;> simp [hex]
+
+example : ∃ s s' : St, s.m = [.writeBusy false] ∧ step s .stepMF = some s' ∧ s'.m = [.readProg] :=
+  ⟨{ m := [.writeBusy false] }, _, rfl, rfl, rfl⟩
+
+/-- a signal consumed during the serve-ready wait whose busy report cannot be written: the refused
+request's marker is gone, nothing else changed. -/
+theorem failed_report_in_ready_wait_changes_nothing {s s' : St} {k : Kind} (hs : step s (.swallowF k) = some s') :
+    s' = { s with marker := false, faults := s.faults + 1 } := by
+  unfold step at hs
+  cases hex : s.exited
+  case true => simp [hex] at hs
+  simp only [hex, Bool.false_eq_true, if_false] at hs
+  split at hs
+  · simp only [Option.some.injEq] at hs; exact hs.symm
+  · cases hs
+
+example : ∃ s s' : St, step s (.swallowF .reload) = some s' ∧ s'.progress = .processing :=
+  ⟨{ pending := true, progress := .processing, m := [.waitReady, .setResult, .finishSucc] }, _, rfl, rfl⟩
+
+/-- a `dae reload` client whose `kill(2)` fails restores the progress file it found
+(`writeReloadSendAndSignal`): no trace is left, later clients are not refused because of it. -/
+theorem failed_client_leaves_no_trace {s s' : St} (hs : step s .cliFail = some s') : s' = s := by
+  unfold step at hs
+  cases hex : s.exited
+  case true => simp [hex] at hs
+  simp only [hex, Bool.false_eq_true, if_false] at hs
+  split at hs
+  · simp only [Option.some.injEq] at hs; exact hs.symm
+  · cases hs
+
+example : (step init .cliFail).isSome = true := rfl
+
+/-- **Failing file I/O cannot wedge the daemon**: whatever progress-file operations failed on the way
+(any number, at any section of any goroutine), a settled running daemon has no request in progress, no
+flag up, the muting counter at 0 — and takes the next signal.  What a failure CAN leave behind is a
+stale busy report in the file (see the example below): `dae suspend` and a plain `kill -USR1` work,
+the `dae reload` client refuses at its pre-check until the next release's clean-up clears the report
+(coordinator decision (ii): not an alarm). -/
+theorem never_wedged_under_io_faults {s : St} (hr : Reachable s) (hx : s.exited = false) (hq : quiescent s = true) :
+    s.pending = false ∧ s.suppress = 0 ∧ s.active = false ∧ s.reloading = false ∧ s.queue = [] ∧
+    ∀ k, ∃ s'', runActs s [.sig k, .stepM, .stepM] = some s'' ∧ s''.pending = true ∧ s''.queue = [k] ∧
+      s''.suppress = 1 := by
+  have hc := settled_is_clean hr hx hq
+  have hi := idle_of_quiescent hq hx
+  refine ⟨hc.1, hc.2.1, hc.2.2.2.1, hc.2.2.2.2.1, hc.2.2.2.2.2, fun k => ?_⟩
+  refine ⟨{ s with pending := true, suppress := s.suppress + 1, queue := s.queue ++ [k], m := [], marker := false,
+                    qAbort := s.marker, reqAt := s.now }, ?_, rfl, ?_, ?_⟩
+  · simp [runActs, step, hx, hi.m, exec, hc.1, hi.queue]
+  · simp [hi.queue]
+  · simp [hc.2.1]
+
+/-- the read of the release's clean-up fails after a refusal wrote its busy report: settled, idle,
+accepting — and the file still says busy. -/
+def exStaleBusyAfterFault : List Act :=
+  exAccepted ++ [.wStart 4] ++ List.replicate 12 .stepW ++ [.wake 5] ++ List.replicate 5 .stepM ++
+  [.sig .reload, .stepM, .stepM, .closeG, .gStore, .gEnd, .gReadF]
+
+example : ∃ s, Reachable s ∧ s.exited = false ∧ quiescent s = true ∧ s.faults = 1 ∧ s.pending = false ∧
+    s.progress.isBusy = true :=
+  ⟨_, reachable_of_run (acts := exStaleBusyAfterFault) rfl, rfl, by decide, rfl, rfl, rfl⟩
+
+/-- and the headline invariants are about such runs too: a refusal whose busy report could not be
+written, while a request is in progress. -/
+example : ∃ s, Reachable s ∧ s.exited = false ∧ s.faults = 1 ∧ tokens s = 1 ∧ s.progress = .processing :=
+  ⟨_, reachable_of_run (acts := exAccepted ++ [.wStart 4, .stepW, .stepW, .stepW, .sig .suspend, .stepM, .stepMF]) rfl,
+    rfl, rfl, rfl, rfl⟩
 
 /-! ### the old generation's retirement has a clock -/
 
@@ -451,11 +549,65 @@ theorem drain_wait_bounded (maxWait : Int) (sessions : Nat) (idleAt cancelAt : O
     drainResults maxWait sessions idleAt cancelAt ≠ [] := by
   exact ⟨drainTime_le_budget _ _ _ _, drainResults_ne_nil _ _ _ _⟩
 
+/-! ### the retirement's budget counts from the arrival of the request it belongs to -/
+
+/-- **When a retirement starts — in the worker (full reload) or in the run-state handler (staged
+hand-off) — the request time recorded in the manager is the arrival time of the request in progress**
+(never a stale one of an earlier request, never the zero time), under every interleaving; so the drain
+budget is `reloadTotalSwitchBudget` minus the time this very request has taken so far, and the old
+generation has retired no later than `reloadTotalSwitchBudget` after the request's signal was taken —
+or at once, when the switch itself already took longer.  (This is the content of the constant's name;
+it is what bounds "once the previous generation has retired".) -/
+theorem retirement_budget_counts_from_the_request {s : St} (hr : Reachable s) (hx : s.exited = false)
+    (h : (∃ rest, s.w = .startRet :: rest) ∨ (∃ rest, s.m = .startRet :: rest)) :
+    s.metaAt = some s.reqAt ∧ s.reqAt ≤ s.now ∧
+    (exec s .startRet).1.mgrLeft = retireDoneAt (retScenarioOf s) ∧
+    (s.now - s.reqAt) + retireDoneAt (retScenarioOf s) ≤ max (s.now - s.reqAt) totalSwitchBudget := by
+  have _ := hx
+  have hM := reachable_meta hr
+  have hreq := (reachable_clock hr).req
+  have hmeta : s.metaAt = some s.reqAt := by
+    rcases h with ⟨rest, h⟩ | ⟨rest, h⟩
+    · exact hM.w (by rw [h]; rfl)
+    · have hk := hM.okm
+      rw [h] at hk
+      simp only [okM, Bool.and_eq_true] at hk
+      exact hM.m (Or.inr (by rw [h]; simp [anyRelM_cons, Micro.isRelM, hk.1]))
+  refine ⟨hmeta, hreq, rfl, ?_⟩
+  have hb := (retirement_done_within_budget (retScenarioOf s)).1
+  have hbud : (retScenarioOf s).budget = remBudget false ((s.now : Int) - (s.reqAt : Int)) totalSwitchBudget := by
+    simp [RetScenario.budget, retScenarioOf, hmeta]
+  rw [hbud] at hb
+  unfold remBudget at hb
+  simp only [Bool.false_eq_true, if_false] at hb
+  repeat' split at hb
+  all_goals omega
+
+/-- 3 s after its signal was taken a full reload starts retiring its old generation (3 sessions that
+never end): the retirement has the rest of the budget and no more. -/
+def exRetireAfter3s : List Act :=
+  exAccepted ++ [.tick 3000000000, .chooseRet ⟨false, false, true, 0, 3, none, none⟩, .wStart 4] ++
+  List.replicate 8 .stepW
+
+example : ∃ s rest, Reachable s ∧ s.exited = false ∧ s.w = .startRet :: rest ∧ s.now - s.reqAt = 3000000000 ∧
+    retireDoneAt (retScenarioOf s) = totalSwitchBudget - 3000000000 :=
+  ⟨_, _, reachable_of_run (acts := exRetireAfter3s) rfl, rfl, rfl, rfl, by decide⟩
+
+/-- **The abort decision of the request being processed decides the retirement it starts**
+(`dae reload -a`): the old generation is aborted at once, whatever its sessions do. -/
+theorem abort_request_retires_old_generation_at_once (s : St) (h : s.wAbort = true) :
+    retireDoneAt (retScenarioOf s) = 0 ∧ retireAborted (retScenarioOf s) = [true] ∧
+    (exec s .startRet).1.mgrLeft = 0 := by
+  simp [exec, retireDoneAt, retireAborted, retScenarioOf, h]
+
+example : ∃ s, Reachable s ∧ s.wAbort = true ∧ s.w.head? = some (.setActive true) :=
+  ⟨_, reachable_of_run (acts := [.cliMark, .sig .reload, .stepM, .stepM, .wStart 4]) rfl, rfl, rfl⟩
+
 /-- In the transition system the retirement step starts the clock with that bound: the section
 `startControlPlaneRetirement` publishes an open channel and sets its remaining time to
 `retireDoneAt` of the scenario the environment chose. -/
 theorem retirement_step_starts_clock (s : St) :
-    exec s .startRet = ({ s with retDone := some false, mgrLeft := retireDoneAt s.nextRet }, []) := rfl
+    exec s .startRet = ({ s with retDone := some false, mgrLeft := retireDoneAt (retScenarioOf s) }, []) := rfl
 
 /-- The remaining times of open retirements never exceed `reloadTotalSwitchBudget`. -/
 theorem retirement_clock_bounded {s : St} (hr : Reachable s) :
@@ -546,12 +698,12 @@ Processing, the worker still has its Error write or the hand-off ahead, or the m
 its Done/Error write ahead, or the hand-off is waiting for the main loop") together with the busy
 coverage invariant; it holds under all interleavings, including busy reports written by refusals
 (4876faa) and by the serve-ready wait (926f7bd) on top of `Processing`. -/
-theorem answered_full {s : St} (hr : Reachable s) (hx : s.exited = false) (hq : quiescent s = true) :
-    s.progress.cliAccepts = true ∨ s.progress = .send := by
+theorem answered_full {s : St} (hr : Reachable s) (hx : s.exited = false) (hq : quiescent s = true)
+    (hf : s.faults = 0) : s.progress.cliAccepts = true ∨ s.progress = .send := by
   have hI := reachable_inv hr hx
   have hi := idle_of_quiescent hq hx
-  have hb := (clean_of_idle hI hi).2.2.1
-  have hp := not_processing_of_idle hI hi
+  have hb := (clean_of_idle hI hi).2.2.1 hf
+  have hp := not_processing_of_idle hI hi hf
   cases h : s.progress <;> simp [h, Prog.isBusy, Prog.isProcessing, Prog.cliAccepts] at hb hp ⊢
 
 /-- a reload that succeeded and whose old generation has retired, fully settled: Done "OK". -/
